@@ -176,12 +176,12 @@ Lemma dk_file_ops : forall ops s,
 Proof.
   induction ops as [|o ops IH]; intros s F; [reflexivity|].
   inversion F as [|x l Ho Hops]; subst. simpl. rewrite IH by assumption.
-  destruct o; simpl in *; try contradiction; apply dk_set_file.
+  destruct o; simpl in *; try contradiction; try reflexivity; apply dk_set_file.
 Qed.
 
 Lemma dk_crash_torn : forall k run s, dk (crash (CTorn k) run s) = dk (crash (CAfter k) run s).
 Proof.
-  intros; simpl. destruct (nth_error run k) as [[| | | |]|]; try reflexivity. apply dk_set_file.
+  intros; simpl. destruct (nth_error run k) as [[| | | | | | |]|]; try reflexivity. apply dk_set_file.
 Qed.
 
 Lemma firstn_app_le : forall {A} (a b : list A) k, (k <= length a)%nat -> firstn k (a ++ b) = firstn k a.
@@ -202,7 +202,7 @@ Lemma dk_event_prefix : forall ev s k,
 Proof.
   intros ev s k; destruct ev as [r|r|]; simpl.
   - destruct k; simpl; [left|right]; try rewrite firstn_nil; reflexivity.
-  - destruct k as [|[|[|[|[|k]]]]]; simpl; try rewrite firstn_nil; [left; reflexivity | right ..];
+  - destruct k as [|[|[|[|[|[|[|k]]]]]]]; simpl; try rewrite firstn_nil; [left; reflexivity | right ..];
       simpl; repeat rewrite dk_set_file; reflexivity.
   - left. destruct k as [|[|k]]; simpl; try rewrite firstn_nil; simpl; repeat rewrite dk_set_file; reflexivity.
 Qed.
@@ -323,7 +323,7 @@ Definition files_inv (e : Z) (lf : bool) (gone : bool) (s : dstate) : Prop :=
 Lemma files_inv_consistent : forall e lf gone s, files_inv e lf gone s -> files_consistent s = true.
 Proof.
   intros e lf gone s [L [[E [F [G [S _]]]]|[E [[r [F Er]] [[_ [G S]]|[_ [Lf [G S]]]]]]]];
-    unfold files_consistent, node_restart; rewrite F, G, S; simpl.
+    unfold files_consistent, node_restart; rewrite F, G, ?S; simpl.
   - reflexivity.
   - rewrite Er, Z.eqb_refl. reflexivity.
   - rewrite L. exact Lf.
@@ -401,8 +401,10 @@ Qed.
 Lemma crash_nil : forall cp s, crash cp [] s = s.
 Proof. intros [k|k] s; simpl; rewrite firstn_nil; [reflexivity|]. destruct k; reflexivity. Qed.
 
+(* since key.Save replaces the file atomically and Reset removes the group first, only the two
+   ordering classes are left *)
 Definition classified (s : dstate) : bool :=
-  files_consistent s || class_db_ahead s || class_epoch_mismatch s || class_torn s || class_half_reset s.
+  files_consistent s || class_db_ahead s || class_epoch_mismatch s.
 
 Ltac zdecide :=
   repeat match goal with
@@ -432,21 +434,22 @@ Proof.
     apply Z.eqb_eq in H1. apply Z.eqb_eq in H4. apply Z.eqb_eq in H3.
     destruct I as [[E [F [G [S _]]]]|[E [[r0 [F Er0]] [[_ [G S]]|[X _]]]]]; [| |discriminate X]; subst fi g sh.
     + (* first DKG *)
-      destruct cp as [k|k]; destruct k as [|[|[|[|[|k]]]]]; simpl in K; try lia;
-        unfold classified, files_consistent, class_db_ahead, class_epoch_mismatch, class_torn,
-          class_half_reset, node_restart, is_left; simpl; rewrite ?H1; simpl; zdecide; reflexivity.
+      destruct cp as [k|k]; destruct k as [|[|[|[|[|[|[|k]]]]]]]; simpl in K; try lia;
+        unfold classified, files_consistent, class_db_ahead, class_epoch_mismatch,
+          node_restart, is_left; simpl; rewrite ?H1; simpl; zdecide; reflexivity.
     + (* resharing on top of epoch e *)
-      destruct cp as [k|k]; destruct k as [|[|[|[|[|k]]]]]; simpl in K; try lia;
-        unfold classified, files_consistent, class_db_ahead, class_epoch_mismatch, class_torn,
-          class_half_reset, node_restart, is_left; simpl; rewrite ?H1, ?Er0; simpl; zdecide;
+      destruct cp as [k|k]; destruct k as [|[|[|[|[|[|[|k]]]]]]]; simpl in K; try lia;
+        unfold classified, files_consistent, class_db_ahead, class_epoch_mismatch,
+          node_restart, is_left; simpl; rewrite ?H1, ?Er0; simpl; zdecide;
         try reflexivity;
         (* crash before the transaction: the state is the consistent one we started from *)
         rewrite <- L; unfold is_left; simpl; destruct cu as [rc|]; simpl; zdecide; reflexivity.
   - repeat (apply andb_true_iff in W as [W ?]). apply Z.leb_le in W. subst lf.
     destruct I as [[E _]|[E [[r0 [F Er0]] [[_ [G S]]|[X _]]]]]; [lia | | discriminate X]; subst fi g sh.
     destruct cp as [k|k]; destruct k as [|[|k]]; simpl in K; try lia;
-      unfold classified, files_consistent, class_db_ahead, class_epoch_mismatch, class_torn,
-        class_half_reset, node_restart; simpl; rewrite ?Er0; simpl; zdecide; reflexivity.
+      unfold classified, files_consistent, class_db_ahead, class_epoch_mismatch,
+        node_restart; simpl; rewrite ?Er0; simpl; zdecide; try reflexivity;
+      unfold is_left in L; simpl in L; unfold is_left; simpl; rewrite L; reflexivity.
 Qed.
 
 Theorem files_classified : forall evs e lf s cp,
@@ -532,9 +535,9 @@ Proof.
     apply Z.eqb_eq in H1. apply Z.eqb_eq in H4. apply Z.eqb_eq in H3.
     destruct I as [[E [F [G [S _]]]]|[E [[r0 [F Er0]] [[_ [G S]]|[X _]]]]]; [| |discriminate X]; subst fi g sh.
     + (* first DKG: the record is epoch 1, there is no previous pair *)
-      destruct cp as [k|k]; destruct k as [|[|[|[|[|k]]]]]; simpl in K; try lia;
+      destruct cp as [k|k]; destruct k as [|[|[|[|[|[|[|k]]]]]]]; simpl in K; try lia;
         unfold class_prev_destroyed, is_left; simpl; rewrite ?H1, ?H0, ?E; simpl; reflexivity.
-    + destruct cp as [k|k]; destruct k as [|[|[|[|[|k]]]]]; simpl in K; try lia;
+    + destruct cp as [k|k]; destruct k as [|[|[|[|[|[|[|k]]]]]]]; simpl in K; try lia;
         unfold class_prev_destroyed, is_left; simpl; rewrite ?H1, ?Er0; simpl;
         rewrite ?andb_false_r; reflexivity.
   - repeat (apply andb_true_iff in W as [W ?]). apply Z.leb_le in W. subst lf.
@@ -567,4 +570,70 @@ Proof.
       * apply (IH e' lf'); assumption.
     + rewrite crash_app_lt by assumption.
       apply (prev_kept_inside_event ev evs e lf s cp W I Hlt).
+Qed.
+
+(* ---------------- atomic replace: no crash point shows an empty or torn key file ---------------- *)
+
+Definition inplace_op (o : pop) : bool :=
+  match o with PFileCreate _ | PFileWrite _ _ => true | _ => false end.
+Definition clean (c : fcontent) : bool :=
+  match c with FEmpty | FTorn _ => false | _ => true end.
+Definition clean_state (s : dstate) : bool := clean (gfile s) && clean (sfile s).
+
+Lemma expand_no_inplace : forall evs,
+  forallb (fun o => negb (inplace_op o)) (expand_all expected_shape evs) = true.
+Proof.
+  induction evs as [|ev evs IH]; [reflexivity|].
+  simpl expand_all. rewrite forallb_app, IH, andb_true_r. destruct ev; reflexivity.
+Qed.
+
+Lemma dkg_put_files : forall puts s,
+  gfile (fold_left dkg_put puts s) = gfile s /\ sfile (fold_left dkg_put puts s) = sfile s.
+Proof.
+  induction puts as [|[b r] puts IH]; intros s; [split; reflexivity|].
+  simpl. destruct (IH (dkg_put s (b, r))) as [G S]. rewrite G, S. destruct b; split; reflexivity.
+Qed.
+
+Lemma apply_op_clean : forall o s, inplace_op o = false -> clean_state s = true ->
+  clean_state (apply_op s o) = true.
+Proof.
+  intros o s N C. unfold clean_state in *. apply andb_true_iff in C as [Cg Cs].
+  destruct o as [b|puts|f|f e|f|f|f e|f e]; simpl in *; try discriminate;
+    try (rewrite Cg, Cs; reflexivity); try (destruct f; simpl; rewrite ?Cg, ?Cs; reflexivity).
+  destruct (dkg_put_files puts s) as [G S]. rewrite G, S, Cg, Cs. reflexivity.
+Qed.
+
+Lemma apply_ops_clean : forall ops s,
+  forallb (fun o => negb (inplace_op o)) ops = true -> clean_state s = true ->
+  clean_state (apply_ops s ops) = true.
+Proof.
+  induction ops as [|o ops IH]; intros s F C; [exact C|].
+  simpl in F. apply andb_true_iff in F as [Fo Fs]. simpl. apply IH; [exact Fs|].
+  apply apply_op_clean; [apply negb_true_iff, Fo | exact C].
+Qed.
+
+Lemma forallb_firstn : forall {A} (p : A -> bool) l k, forallb p l = true -> forallb p (firstn k l) = true.
+Proof.
+  intros A p l; induction l as [|x l IH]; intros k F; [rewrite firstn_nil; reflexivity|].
+  destruct k; [reflexivity|]. simpl in *. apply andb_true_iff in F as [Fx Fl]. rewrite Fx. apply IH, Fl.
+Qed.
+
+Theorem no_torn_key_file : forall evs cp,
+  class_torn (crash cp (expand_all expected_shape evs) empty_state) = false /\
+  clean_state (crash cp (expand_all expected_shape evs) empty_state) = true.
+Proof.
+  intros evs cp.
+  assert (C : clean_state (crash cp (expand_all expected_shape evs) empty_state) = true).
+  { assert (F := expand_no_inplace evs).
+    destruct cp as [k|k]; simpl.
+    - apply apply_ops_clean; [apply forallb_firstn, F | reflexivity].
+    - destruct (nth_error (expand_all expected_shape evs) k) as [o|] eqn:N.
+      + assert (I : inplace_op o = false).
+        { apply nth_error_In in N. rewrite forallb_forall in F. apply negb_true_iff, F, N. }
+        destruct o; simpl in I; try discriminate;
+          apply apply_ops_clean; try (apply forallb_firstn, F); reflexivity.
+      + apply apply_ops_clean; [apply forallb_firstn, F | reflexivity]. }
+  split; [|exact C].
+  unfold clean_state in C. apply andb_true_iff in C as [Cg Cs]. unfold class_torn.
+  destruct (gfile _), (sfile _); simpl in *; try discriminate; reflexivity.
 Qed.
